@@ -16,6 +16,7 @@ type Profile struct {
 	StatsEvery  int
 	MapGetEvery int
 	SweepEvery  int
+	Scenarios   float64 // probability per op to start a directed table-lifecycle scenario
 	MinOps      int
 	MaxOps      int
 	MaxEntities int
@@ -43,7 +44,7 @@ func DefaultProfile() *Profile {
 		StoreEvery: 1, PoolEvery: 1, LockEvery: 1, StatsEvery: 7, MapGetEvery: 5,
 		MinOps: 20, MaxOps: 300, MaxEntities: 120, Observers: true,
 		CbActions:   []int{CbNothing, CbRead, CbQuery, CbWritePtr, CbGC, CbStructural, CbUnregSelf, CbUnregOther, CbRegNew},
-		MisuseKinds: []string{"stale", "dup_add", "missing_remove", "empty_list", "missing_target", "dead_target"},
+		MisuseKinds: []string{"stale", "dup_add", "missing_remove", "empty_list", "missing_target", "dead_target", "query_dead_target", "query_foreign_relation"},
 	}
 }
 
@@ -58,6 +59,7 @@ type Gen struct {
 	w       []float64
 	kinds   []string
 	faultOn map[string]bool
+	scen    *scenario
 }
 
 // DrawConfig draws the per-run configuration (swarm style).
@@ -211,9 +213,127 @@ func (g *Gen) findTuple(tuples [][]int, lo int, pred func(t []int) bool) int {
 
 func (g *Gen) fn() int { return []int{FnValue, FnValue, FnFunc, FnFunc, FnNil}[g.R.Intn(5)] }
 
+// scenario is a short directed sequence that lands faults inside in-flight
+// state: a relation table is emptied, freed by Shrink (or left to cleanup),
+// and then needed again for the same targets.
+type scenario struct {
+	comps []int
+	tgt   map[int]int // relation type -> target label
+	phase int
+	kind  int
+}
+
+func (g *Gen) sameTable(e *Ent, sc *scenario) bool {
+	if !e.Alive || len(e.Comps) != len(sc.comps) || !e.Has(sc.comps...) {
+		return false
+	}
+	for t, l := range sc.tgt {
+		if e.Tgt[t] != l {
+			return false
+		}
+	}
+	return true
+}
+
+// nextScenario returns the next op of the active scenario (ok=false when it is over).
+func (g *Gen) nextScenario() (Op, bool) {
+	sc := g.scen
+	m := g.S.M
+	switch sc.phase {
+	case 0:
+		// empty the table: remove (or re-target) every entity that lives in it
+		for i, l := range m.Live {
+			e := m.Ents[l-1]
+			if g.sameTable(e, sc) {
+				isTarget := false
+				for _, tl := range sc.tgt {
+					if tl == l {
+						isTarget = true
+					}
+				}
+				if isTarget {
+					continue
+				}
+				if sc.kind == 1 && len(sc.tgt) > 0 {
+					var cs []int
+					for t := range sc.tgt {
+						cs = append(cs, t)
+					}
+					sortInts(cs)
+					ts := make([]int, len(cs))
+					for k := range ts {
+						ts[k] = (i + 1 + k) % len(m.Live)
+					}
+					return Op{K: KSetRel, E: i, P: PUnsafe, Cs: cs[:1], Ts: ts[:1], RS: RSID}, true
+				}
+				return Op{K: KRemoveEntity, E: i}, true
+			}
+		}
+		sc.phase = 1
+		fallthrough
+	case 1:
+		sc.phase = 2
+		if sc.kind == 2 {
+			return Op{K: KGC}, true
+		}
+		return Op{K: KShrink, N: -1}, true
+	case 2:
+		sc.phase = 3
+		// need the table again, for the same targets
+		var ts []int
+		for _, c := range sc.comps {
+			if !U[c].IsRel {
+				continue
+			}
+			l := sc.tgt[c]
+			idx := -1
+			if l != 0 {
+				for i, x := range m.Live {
+					if x == l {
+						idx = i
+					}
+				}
+			}
+			ts = append(ts, idx)
+		}
+		return Op{K: KNewEntity, P: PUnsafe, Cs: sc.comps, Vs: g.vals(len(sc.comps)), Ts: ts, RS: RSID}, true
+	case 3:
+		sc.phase = 4
+		return Op{K: KSweep}, true
+	}
+	g.scen = nil
+	return Op{}, false
+}
+
+func sortInts(a []int) {
+	for i := 1; i < len(a); i++ {
+		for j := i; j > 0 && a[j] < a[j-1]; j-- {
+			a[j], a[j-1] = a[j-1], a[j]
+		}
+	}
+}
+
 // Next draws the next op.
 func (g *Gen) Next() Op {
 	m := g.S.M
+	if g.scen != nil && !g.S.locked() {
+		if op, ok := g.nextScenario(); ok {
+			return op
+		}
+	}
+	if g.P.Scenarios > 0 && g.scen == nil && len(m.Live) > 2 && !g.S.locked() && g.R.Chance(g.P.Scenarios) {
+		e := m.PickLive(g.liveIdx())
+		if e != nil && len(e.Tgt) > 0 {
+			sc := &scenario{comps: e.Types(), tgt: map[int]int{}, kind: g.R.Intn(3)}
+			for t, l := range e.Tgt {
+				sc.tgt[t] = l
+			}
+			g.scen = sc
+			if op, ok := g.nextScenario(); ok {
+				return op
+			}
+		}
+	}
 	if len(m.Live) > g.P.MaxEntities {
 		if g.R.Chance(0.5) {
 			return Op{K: KRemoveEntity, E: g.liveIdx()}
@@ -650,7 +770,7 @@ func (g *Gen) genMisuse() Op {
 		return Op{K: KGC}
 	}
 	k := kinds[g.R.Intn(len(kinds))]
-	op := Op{K: KMisuse, M: k, E: g.R.Intn(1000), N: g.R.Intn(1000), X: uint64(g.R.Intn(1000)), P: []int{PUnsafe, PMap, PEx}[g.R.Intn(3)]}
+	op := Op{K: KMisuse, M: k, E: g.R.Intn(1000), N: g.R.Intn(1000), X: uint64(g.R.Intn(1000)), P: []int{PUnsafe, PMap, PEx}[g.R.Intn(3)], F: g.R.Intn(MaxFilters), W: g.R.Intn(2)}
 	if op.P == PMap {
 		op.Ad = g.R.Intn(len(MapTuples))
 	} else if op.P == PEx {
